@@ -20,7 +20,7 @@ import refsftp as RS
 from vloop import Livelock
 
 PROP = 'C12'
-SCRATCH = '/dev/shm/asyncssh-verif-c12'
+SCRATCH = '/dev/shm/asyncssh-verif-c12-%d' % os.getpid()       # unique per check run (workers are forked later)
 _real_wait = asyncio.wait
 _wait_order = ['asc']
 
